@@ -996,6 +996,7 @@ static void pre_max(unsigned n, const double *x, const double *v, double *vpre, 
     d->pre(n, x, v, vpre, d->f_data);
     for (i = 0; i < n; ++i)
         vpre[i] = -vpre[i];
+    NLOPT_VERIF_EVENT(42, d, vpre, 0.0, (int) n);
 }
 
 nlopt_result NLOPT_STDCALL nlopt_optimize(nlopt_opt opt, double *x, double *opt_f)
